@@ -238,7 +238,8 @@ class Oracle:
             # ---- activity is registered
             for c in list(self.sent_at):
                 self.sent_rounds[c].add(now)
-                if c in cs and c in pcs and not pcs[c]["s"] and not pcs[c]["x"] and c not in self.resume_req:
+                if c in cs and c in pcs and not pcs[c]["s"] and not pcs[c]["x"] and c not in self.resume_req \
+                        and not pcs[c]["p"] and not pcs[c]["b"]:   # in a PROCESS wait state the socket is not read
                     self.elig[c] += 1
                     if cs[c]["la"] >= self.sent_at[c] or cs[c]["la"] in self.sent_rounds[c] or cs[c]["tmo"] == 0 or cs[c]["x"]:
                         del self.sent_at[c]; del self.elig[c]; del self.sent_rounds[c]
@@ -546,7 +547,10 @@ class Spec:
                          "Mhd.C10.repaired_F11e", "Mhd.C10.largeDisplacement_closes_idle",
                          "Mhd.C10.conversions_never_longer", "Mhd.C10.legacy_wrappers_exact", "Mhd.C10.loop_timeout_exact",
                          "Mhd.C10.select_timeval_exact", "Mhd.C10.thread_timeval_exact",
-                         "Mhd.C10.thread_timeval_huge_negative", "Mhd.C10.loop_wait_le_earliest_deadline"]
+                         "Mhd.C10.thread_timeval_huge_negative", "Mhd.C10.loop_wait_le_earliest_deadline",
+                         "Mhd.C10.current_accumulates_pending", "Mhd.C10.pending_flag_only_raised",
+                         "Mhd.C10.select_traversal_pending_hint_zero", "Mhd.C10.select_traversal_keeps_pending",
+                         "Mhd.C10.assigned_flag_is_cleared_by_idle_connection", "Mhd.C10.accumulated_flag_gives_zero"]
     trusted_base = ["Lean 4 kernel", "axioms: propext, Classical.choice, Quot.sound at most (audited per theorem)",
                     "hand-written model lean/Mhd/Model/Tmo.lean + TmoLoop.lean + TmoConv.lean tied to connection.c/daemon.c by this "
                     "run's correspondence (every output line incl. white-box dump of the timeout lists; `conv`: the four "
@@ -563,6 +567,10 @@ class Spec:
                    "states whose clock is at most 5000 ms (the code's own tolerance) behind the highest value it has shown; "
                    "beyond that the code closes connections by its documented 'too large jump back' rule "
                    "(theorem largeDisplacement_closes_idle)",
+                   "work pending without a socket event is produced by one handler behaviour only (partial consumption of "
+                   "the upload: k bytes left in the read buffer, state BODY_RECEIVING / PROCESS); not-ready content readers "
+                   "and late replies are not scripted; the accumulation theorem is for the select traversal, in the epoll "
+                   "loop hint 0 with work pending (eready list) is carried by the correspondence and the oracle only",
                    "LP64 type sizes for the conversions (checked against MHD_config.h on every run)",
                    "virtual times < 2^62 ms, timeouts as settable through the API (< 2^32 s)",
                    "the scripted clients never complete a request: activity = received bytes only (no reply traffic)"]
@@ -694,7 +702,9 @@ class Spec:
                        "clock, pending flags, the five lists in pointer order, per-connection stamp/timeout/flags); distinct = "
                        "different scripts; bounded-exhaustive: all sequences of <= %d composite ops over a %d-op alphabet, "
                        "2 modes; random: 1-3 connections, default timeout in {0,3,5,10} s, 35%% of them with backward "
-                       "clock jumps; jump histories: a backward jump of every size in the list at every position of 3 base "
+                       "clock jumps, 35%% with a slow handler (one upload byte per call) and multi-byte sends; pending-work "
+                       "histories: the connection with unprocessed upload data in every position among 2-3 connections x "
+                       "2/4 bytes x 13 things the others do meanwhile x 2 modes x default timeout {10,0}; jump histories: a backward jump of every size in the list at every position of 3 base "
                        "histories (alone and followed by a round) + pairs of jumps, 2 modes; conv: the hint poked to "
                        "boundary and random uint64 values x caps in 5 daemon states x 2 modes x default timeout {10,0}, the "
                        "four public wrappers and the two static get_timeout_millisec_* compared with the model and with "
